@@ -13,8 +13,9 @@ import (
 // content (read back through the public iterator) and the projected slab forest.
 
 type runCfg struct {
-	T     int `json:"T"`
-	Limit int `json:"limit"`
+	T      int    `json:"T"`
+	Limit  int    `json:"limit"`
+	Index0 uint64 `json:"index0"` // first slab index handed out by the ledger is Index0 + 1
 }
 
 func newArrayWorld(T int) *World {
@@ -50,6 +51,7 @@ func cmdArrayRun(args []string) {
 			}
 			must(json.Unmarshal(line, &hdr))
 			cfg = hdr.Cfg
+			ledgerIndexBase = cfg.Index0
 			return
 		}
 		var raw []json.RawMessage
